@@ -21,6 +21,22 @@ CHECKS = {
         technique="panic/abort/step-clock monitors over generated hostile inputs (probe + CLI exit status)"),
 }
 
+CHECKS["C01"] = dict(
+    category="exploration", design_ref="DESIGN.md 4 (C01), App. A",
+    text="Runtime monitoring of the parser at its public boundary: grammar-directed programs are spelled by a "
+         "generator that records, independently of parser.rs, the normal form the library must have; the probe "
+         "returns the real library (Debug dump plus visitor-collected addresses) and an offline oracle compares "
+         "normal forms node by node. The operator sub-space (all ordered operator pairs x 3 shapes, unary "
+         "placements, 343 triples) is enumerated completely against a reference precedence parser; the rest of "
+         "the grammar is explored randomly (thousands to 10^5 programs, each in several layouts).",
+    note="Normal form deliberately ignores representation choices (DESIGN.md App. A): LateBound vs Variable for a "
+         "bare name, which initialiser variant carries a type reference, parentheses, identifier case, spans. "
+         "Productions the parser does not implement (IL, VAR_TEMP, several RESOURCEs) are outside the subset and not "
+         "generated; whitespace is only varied where the canonical spelling has whitespace. Genuine defects that "
+         "are recorded rather than fixed are avoided in 2/3 of the workload (clean subset) and matched by signature "
+         "in the rest.",
+    technique="generated programs + independent expected-tree oracle (reference precedence parser), monitored at parse_program")
+
 NOT_YET = {}
 
 
